@@ -145,7 +145,7 @@ def run(ctx):
             env.update({"VERIF_SYSCFGS": 1, "VERIF_RANDOM": 4, "VERIF_CONC": 2, "VERIF_ROUNDS": 10})
         else:
             env.update({"VERIF_SYSCFGS": 4, "VERIF_RANDOM": 40, "VERIF_CONC": 10, "VERIF_ROUNDS": 25})
-        res = ctx.run_harness("c13", "^TestRecord$", env=env, timeout=900)
+        res = ctx.run_harness("c13", "^TestRecord$", env=env, timeout=int(os.environ.get("VERIF_C13_HARNESS_TIMEOUT", "900")))
     finally:
         for t in threads:
             t.join()
